@@ -51,6 +51,8 @@ func extractAll(f *facts, v1, v2 *pkg, repo string) {
 		shapeFactX(f, "v2_shape_ev_"+fn, v2, "eventer.go", "EventerBase", fn, true)
 	}
 	sdkCodesFact(f)
+	accessFact(f, "v1_accesses", v1)
+	accessFact(f, "v2_accesses", v2)
 	defaultsFact(f, "v1", v1, "Batcher")
 	defaultsFact(f, "v2", v2, "batcher")
 	setterGuards(f, v2)
